@@ -238,6 +238,7 @@ func (w *c04World) takeFlight(i int) c04Flight {
 
 func (w *c04World) applyAck(i int) {
 	fl := w.takeFlight(i)
+	w.noteAcked(fl.sf.Frame)
 	fl.sf.Handler.OnAcked(fl.sf.Frame)
 	w.outcome = "ack"
 }
